@@ -4,6 +4,7 @@ import GeoVerif.Driver.Merge
 import GeoVerif.Driver.Box
 import GeoVerif.Driver.Grid
 import GeoVerif.Driver.Survey
+import GeoVerif.Driver.Codec
 open Lean GeoVerif.Driver
 
 structure DSt where
@@ -21,6 +22,7 @@ def stepLine (st : DSt) (line : String) : DSt × String :=
     | "box" => (st, (BoxD.handle j).compress)
     | "grid" => (st, (GridD.handle j).compress)
     | "survey" => (st, (SurveyD.handle j).compress)
+    | "codec" => (st, (CodecD.handle j).compress)
     | _ => (st, "\"bad-model\"")
 
 partial def loop (h : IO.FS.Stream) (out : IO.FS.Stream) (st : DSt) : IO Unit := do
